@@ -137,7 +137,8 @@ def client_suites(tier, chk, extra=()):
     if tier not in _cache:
         _cache[tier] = ([make_case(s, "script-r%s" % s["retries"]) for s in script_specs(tier)],
                         [make_case(s, "special") for s in special_specs(tier)]
-                        + [make_case(s, "peer-close") for s in peer_close_specs()])
+                        + [make_case(s, "peer-close") for s in peer_close_specs()]
+                        + [make_case(s, "malformed-pdu") for s in malformed_pdu_specs()])
     a, b = _cache[tier]
     b = b + [make_case(s, "special") for s in extra]
     return [Suite("scripts", IMPORTS, "%s code" % chk, a, shard=120),
@@ -393,6 +394,26 @@ def peer_close_specs():
                     specs.append(dict(kind=kind, retries=retries, roe=flags[0], roi=flags[1], tid0=TIDS[i % len(TIDS)],
                                       txs=[dict(req=reqs[i % len(reqs)], unit=UNITS[i % 4], script=[(b, {"k": i})] + tail),
                                            dict(req=reqs[(i * 3 + 1) % len(reqs)], unit=UNITS[i % 4], script=[])]))
+    return specs
+
+
+def malformed_pdu_specs():
+    """well-framed replies (correct length / checksum for the framing) whose PDU the decoder cannot turn into a message:
+    bare function code, cut after the byte count, unknown function code — every client kind x request type (rotating) x
+    retry flags, each followed by the healthy follow-up; the call must end with an error object (or a valid later reply)"""
+    specs = []
+    i = 0
+    for kind in L.KINDS:
+        reqs = [q for q in REQS if q != "write_coil"] if L.FRAMING[kind] == "FBin" else REQS
+        for b in ("barefc", "truncbc", "unknownfc"):
+            for j, req in enumerate(reqs):
+                i += 1
+                flags = FLAGS[i % 4]
+                retries = (0, 1, 3, None)[(i // 4) % 4]
+                tail = [("full", {})] if i % 3 == 0 else []
+                specs.append(dict(kind=kind, retries=retries, roe=flags[0], roi=flags[1], tid0=TIDS[i % len(TIDS)],
+                                  txs=[dict(req=req, unit=UNITS[i % 4], script=[(b, {})] + tail),
+                                       dict(req=reqs[(j + 7) % len(reqs)], unit=UNITS[i % 4], script=[])]))
     return specs
 
 
